@@ -8,6 +8,13 @@
   used to decide whether two states share a mutable object.
 * ``gen_state``: class-based generator of initial states (five dict containers).
 * ``mutate``: one seeded in-place mutation somewhere inside a container (what a hostile operator does).
+* library objects (genotype / breeding value / coancestry matrices, genetic maps, genomic models ...) are digested
+  through what a user can observe (every public property of the class: data arrays, labels, group labels, group index
+  metadata, parameters, shapes) and, when ``probe`` is set, through behavioural probes (is_grouped_*(), afreq(), unscale(),
+  gegv_numpy() / gebv_numpy() on a fixed marker matrix, interpolation of a genetic map); pandas frames through their
+  columns, index and dtypes.  Private attributes are walked only for the alias sink.
+* ``gen_state(g, "library")``: start_genome/geno/pheno/bval/gmod dicts holding real library objects of every kind the
+  containers are documented to hold.
 Nothing here is derived from the library's code.
 """
 import hashlib
@@ -16,6 +23,7 @@ import types
 import numpy
 
 NAMES = ("genome", "geno", "pheno", "bval", "gmod")
+_PLAIN = (str, int, float, bool, type(None))
 _ATOMS = (type, types.ModuleType, types.FunctionType, types.BuiltinFunctionType, types.MethodType)
 
 
@@ -34,7 +42,7 @@ def is_mutable(o):
     return hasattr(o, "__dict__")
 
 
-def canon(o, sink=None, stack=None):
+def canon(o, sink=None, stack=None, probe=False):
     if o is None or isinstance(o, (bool, int, str, bytes)):
         return (type(o).__name__, o)
     if isinstance(o, float):
@@ -61,42 +69,202 @@ def canon(o, sink=None, stack=None):
                     b = b.base
                 sink[id(b)] = b
             if o.dtype == object:
-                return ("ndarray-object", o.shape, tuple(canon(x, sink, stack) for x in o.ravel().tolist()))
+                lst = o.ravel().tolist()
+                if all(type(x) in _PLAIN for x in lst):     # label arrays: one repr instead of a walk per element
+                    return ("ndarray-object-plain", o.shape, repr([(type(x).__name__, x) for x in lst]) if any(type(x) is not str for x in lst) else repr(lst))
+                return ("ndarray-object", o.shape, tuple(canon(x, sink, stack, probe) for x in lst))
             return ("ndarray", o.dtype.str, o.shape, o.tobytes())
         if isinstance(o, dict):
-            items = [(canon(k, sink, stack), canon(v, sink, stack)) for k, v in o.items()]
+            items = [(canon(k, sink, stack, probe), canon(v, sink, stack, probe)) for k, v in o.items()]
             items.sort(key=lambda kv: repr(kv[0]))
             return ("dict", tuple(items))
         if isinstance(o, list):
-            return ("list", tuple(canon(x, sink, stack) for x in o))
+            return ("list", tuple(canon(x, sink, stack, probe) for x in o))
         if isinstance(o, tuple):
-            return ("tuple", tuple(canon(x, sink, stack) for x in o))
+            return ("tuple", tuple(canon(x, sink, stack, probe) for x in o))
         if isinstance(o, (set, frozenset)):
-            return (type(o).__name__, tuple(sorted((canon(x, sink, stack) for x in o), key=repr)))
+            return (type(o).__name__, tuple(sorted((canon(x, sink, stack, probe) for x in o), key=repr)))
         if isinstance(o, bytearray):
             return ("bytearray", bytes(o))
+        if isinstance(o, (numpy.random.Generator, numpy.random.RandomState)):
+            st = o.bit_generator.state if isinstance(o, numpy.random.Generator) else o.get_state(legacy=False)
+            return ("rng", type(o).__name__, canon(st, None, stack, False))
+        lib = _canon_library(o, sink, stack, probe)
+        if lib is not None:
+            return lib
         if hasattr(o, "__dict__"):
-            return ("object", type(o).__module__, type(o).__qualname__, canon(vars(o), sink, stack))
+            return ("object", type(o).__module__, type(o).__qualname__, canon(vars(o), sink, stack, probe))
         return ("repr", type(o).__qualname__, repr(o))
     finally:
         stack.pop()
 
 
-def dg(o, sink=None):
-    return hashlib.blake2b(repr(canon(o, sink)).encode(), digest_size=10).hexdigest()
+def _canon_library(o, sink, stack, probe):
+    """pandas objects and pybrops objects with an observation table; None for anything else."""
+    mod = type(o).__module__ or ""
+    if mod.startswith("pandas"):
+        import pandas
+        if isinstance(o, pandas.DataFrame):
+            if sink is not None and probe:      # comparisons with the initial state: register the column buffers as well
+                for c in o.columns:
+                    canon(o[c].to_numpy(), sink, stack, False)
+            return ("DataFrame", repr(list(o.columns)), repr([str(t) for t in o.dtypes]), repr(o.to_numpy(dtype=object).tolist()),
+                    repr(o.index.tolist()), str(o.index.dtype))
+        if isinstance(o, pandas.Series):
+            arr = o.to_numpy()
+            if sink is not None:
+                canon(arr, sink, stack, False)
+            return ("Series", canon(o.name, None, stack), str(o.dtype), canon(arr, None, stack), canon(numpy.asarray(o.index.to_numpy()), None, stack))
+        return None
+    if not mod.startswith("pybrops"):
+        return None
+    if not probe:     # hand-over digests (every step): the cheap walk over the instance's own fields is enough there;
+        return None   # the observable-equality walk is for comparisons with the initial state (probe=True)
+    names = public_fields(type(o))
+    if not names:
+        return None
+    if sink is not None:    # aliasing is a matter of the private fields too
+        canon(vars(o), sink, stack, False)
+    items = [("__class__", type(o).__module__ + "." + type(o).__qualname__)]
+    index, _CTX["index"] = _CTX["index"], None      # nested library objects belong to their owner's fields
+    try:
+        for k in names:
+            try:
+                v = getattr(o, k)
+            except Exception as e:      # an unreadable public attribute is itself observable
+                items.append((k, ("unreadable", type(e).__name__)))
+                continue
+            items.append((k, canon(v, sink, stack, probe)))
+        beh = canon(behaviour(o), None, stack, False) if probe else None
+    finally:
+        _CTX["index"] = index
+    if index is not None:
+        rec = {k: v for k, v in items[1:]}
+        if beh is not None:
+            for k, v in beh[1]:
+                rec["behaviour: %s" % k[1]] = v
+        index.append((type(o).__qualname__, rec))
+        return ("library-object-placeholder", type(o).__qualname__)
+    out = ("library-object", tuple(items))
+    if probe:
+        out = out + (beh,)
+    return out
 
 
-def dgs(conts, sink=None):
-    return [dg(c, sink) for c in conts]
+def lib_index(conts):
+    """(digest of each container with its library objects masked, [(class name, {field or probe: canonical value})] in
+    order of encounter).  Used to say *which* library object of a state differs and in which fields."""
+    sk, index = [], []
+    _CTX["index"] = index
+    try:
+        for c in conts:
+            sk.append(hashlib.blake2b(repr(canon(c, None, None, True)).encode(), digest_size=10).hexdigest())
+    finally:
+        _CTX["index"] = None
+    return sk, index
+
+
+def lib_diff(conts_a, conts_b):
+    """None when the two states differ outside their library objects (or hold different ones); else a list of
+    (class name, sorted differing fields) for the library objects that differ."""
+    ska, ia = lib_index(conts_a)
+    skb, ib = lib_index(conts_b)
+    if ska != skb or len(ia) != len(ib):
+        return None
+    out = []
+    for (ca, ra), (cb, rb) in zip(ia, ib):
+        bad = sorted(k for k in set(ra) | set(rb) if ra.get(k) != rb.get(k))
+        if bad:
+            out.append((ca, bad))
+    return out
+
+
+_FIELDS = {}
+_CTX = {"index": None}    # when a list: library objects are recorded there and replaced by a placeholder (see lib_index)
+
+
+def public_fields(cls):
+    """What a user can read off an object of this class: every public property defined anywhere in its MRO (data arrays,
+    labels, group labels, group index metadata, parameters, shapes ...).  Class-agnostic on purpose: no table to keep."""
+    got = _FIELDS.get(cls)
+    if got is None:
+        got = []
+        for name in sorted(dir(cls)):
+            if name.startswith("_"):
+                continue
+            if isinstance(getattr(cls, name, None), property):
+                got.append(name)
+        _FIELDS[cls] = got = tuple(got)
+    return got
+
+
+def _try(fn):
+    try:
+        return fn()
+    except Exception as e:
+        return "raises %s" % type(e).__name__
+
+
+def _family(o):
+    names = [c.__name__ for c in type(o).__mro__]
+    for key, fam in (("GenotypeMatrix", "gmat"), ("BreedingValueMatrix", "bvmat"), ("GenomicModel", "gmod"), ("GeneticMap", "gmap")):
+        if key in names:
+            return fam
+    return "other"
+
+
+def behaviour(o):
+    """Behavioural probes: what the object *does*, computed with fixed arguments derived from its own shape only.
+    Every probe is a read-only query (checked: observing twice gives the same digest)."""
+    fam = _family(o)
+    out = {}
+    for m in ("is_grouped_taxa", "is_grouped_vrnt", "is_grouped_trait"):
+        if hasattr(o, m):
+            out[m] = _try(getattr(o, m))
+    if hasattr(o, "is_grouped"):
+        out["is_grouped()"] = _try(o.is_grouped)
+    for a in ("ntaxa", "nvrnt", "ntrait", "nphase", "ploidy", "mat_format"):
+        if hasattr(type(o), a):
+            out[a] = _try(lambda a=a: getattr(o, a))
+    if fam == "gmat":
+        out["afreq"] = _try(o.afreq)
+        out["mat_asformat{0,1,2}"] = _try(lambda: o.mat_asformat("{0,1,2}"))
+    elif fam == "bvmat":
+        out["unscale"] = _try(o.unscale)
+        out["tmean"] = _try(o.tmean)
+    elif fam == "gmod":
+        p = _try(lambda: int(o.u_a.shape[0]))
+        if isinstance(p, int):
+            A = numpy.random.Generator(numpy.random.PCG64(20200)).integers(0, 3, (6, p)).astype(float)   # fixed marker matrix
+            AD = numpy.concatenate([A, (A == 1.0).astype(float)], axis=1)
+            for nm, Z in (("A", A), ("A|D", AD)):
+                out["gegv_numpy(%s)" % nm] = _try(lambda Z=Z: o.gegv_numpy(Z))
+                out["gebv_numpy(%s)" % nm] = _try(lambda Z=Z: o.gebv_numpy(Z))
+    elif fam == "gmap" and _try(o.is_grouped) is True and isinstance(_try(lambda: o.spline), dict):
+        # (an ungrouped map or one without interpolators would group / fit itself when asked: a probe must not change its object)
+        def interp():
+            chrs = numpy.asarray(o.vrnt_chrgrp)
+            pos = numpy.asarray(o.vrnt_phypos)
+            return o.interp_genpos(chrs, pos + 2)
+        out["interp_genpos"] = _try(interp)
+    return out
+
+
+def dg(o, sink=None, probe=False):
+    return hashlib.blake2b(repr(canon(o, sink, None, probe)).encode(), digest_size=10).hexdigest()
+
+
+def dgs(conts, sink=None, probe=False):
+    return [dg(c, sink, probe) for c in conts]
 
 
 def brief(o, limit=600):
-    s = repr(canon(o))
+    s = repr(canon(o, None, None, True))
     return s if len(s) <= limit else s[:limit] + "...(%d chars)" % len(s)
 
 
 # ------------------------------------------------------------------ initial states
-STATE_CLASSES = ["empty", "scalars", "nested", "arrays", "objects", "aliased", "mixedkeys", "pybrops"]
+STATE_CLASSES = ["empty", "scalars", "nested", "arrays", "objects", "aliased", "mixedkeys", "pybrops", "library", "library"]
 
 
 def _scalar(g):
@@ -183,11 +351,220 @@ def _bvmat(g):
         taxa_grp=g.integers(0, 3, n).astype("int64"), trait=numpy.array(["y1", "y2"], dtype=object))
 
 
+def _labels(g, n, prefix):
+    k = int(g.integers(0, 3))
+    if k == 0:
+        lab = ["%s%03d" % (prefix, i) for i in range(n)]
+    elif k == 1:
+        lab = ["%s-ñ%02d" % (prefix, i) for i in range(n)]
+    else:
+        lab = ["%s%02d" % (prefix, i) for i in g.permutation(n)]
+    return numpy.array(lab, dtype=object)
+
+
+GROUPINGS = ("taxa only", "variants only", "taxa and variants", "neither")
+
+
+def lib_gmat(g, phased, grouping=None, n=None, p=None):
+    from pybrops.popgen.gmat.DenseGenotypeMatrix import DenseGenotypeMatrix
+    from pybrops.popgen.gmat.DensePhasedGenotypeMatrix import DensePhasedGenotypeMatrix
+    n = n or int(g.integers(2, 8)); p = p or int(g.integers(2, 10))
+    grouping = grouping or GROUPINGS[int(g.integers(0, 4))]
+    kw = dict(taxa=_labels(g, n, "t"), vrnt_name=_labels(g, p, "m"))
+    full = g.random() < 0.6
+    if grouping in ("taxa only", "taxa and variants") or g.random() < 0.5:
+        kw["taxa_grp"] = g.integers(0, 3, n).astype("int64")
+    if grouping in ("variants only", "taxa and variants") or g.random() < 0.5:
+        kw["vrnt_chrgrp"] = g.integers(1, 4, p).astype("int64")
+        kw["vrnt_phypos"] = g.permutation(numpy.arange(1, p + 1, dtype="int64") * 7)
+    if full:
+        kw["vrnt_genpos"] = g.uniform(0, 2, p)
+        kw["vrnt_xoprob"] = g.uniform(0, 0.5, p)
+        kw["vrnt_hapgrp"] = g.integers(0, 4, p).astype("int64")
+        kw["vrnt_hapalt"] = numpy.array([["A", "C", "G", "T"][int(x)] for x in g.integers(0, 4, p)], dtype=object)
+        kw["vrnt_hapref"] = numpy.array([["A", "C", "G", "T"][int(x)] for x in g.integers(0, 4, p)], dtype=object)
+        kw["vrnt_mask"] = g.random(p) < 0.5
+    if phased:
+        nph = int([2, 2, 2, 1, 3][int(g.integers(0, 5))])
+        obj = DensePhasedGenotypeMatrix(g.integers(0, 2, (nph, n, p)).astype("int8"), **kw)
+    else:
+        ploidy = int([2, 2, 2, 1, 4][int(g.integers(0, 5))])
+        obj = DenseGenotypeMatrix(g.integers(0, ploidy + 1, (n, p)).astype("int8"), ploidy=ploidy, **kw)
+    if grouping in ("taxa only", "taxa and variants"):
+        obj.group_taxa()
+    if grouping in ("variants only", "taxa and variants"):
+        obj.group_vrnt()
+    return obj
+
+
+def lib_bvmat(g, n=None, t=None):
+    import importlib
+    name = ["DenseBreedingValueMatrix", "DenseEstimatedBreedingValueMatrix", "DenseGenomicEstimatedBreedingValueMatrix"][int(g.integers(0, 3))]
+    cls = getattr(importlib.import_module("pybrops.popgen.bvmat." + name), name)
+    n = n or int(g.integers(2, 8)); t = t or int(g.integers(1, 4))
+    kw = dict(taxa=_labels(g, n, "t"))
+    grouped = g.random() < 0.5
+    if grouped or g.random() < 0.5:
+        kw["taxa_grp"] = g.integers(0, 3, n).astype("int64")
+    trait = _labels(g, t, "y") if g.random() < 0.8 else None
+    raw = g.normal(size=(n, t)) * g.uniform(0.5, 20, t) + g.uniform(-50, 50, t)
+    if g.random() < 0.5:
+        obj = cls.from_numpy(raw, trait=trait, **kw)
+    else:
+        obj = cls(mat=raw, location=g.uniform(-5, 5, t), scale=g.uniform(0.5, 3, t), trait=trait, **kw)
+    if grouped:
+        obj.group_taxa()
+    return obj
+
+
+def lib_gmod(g, p=None, t=None, name=None):
+    import importlib
+    name = name or ["DenseAdditiveLinearGenomicModel", "DenseAdditiveDominanceLinearGenomicModel", "DenseAdditiveDominanceLinearGenomicModel",
+                    "rrBLUPModel0"][int(g.integers(0, 4))]
+    cls = getattr(importlib.import_module("pybrops.model.gmod." + name), name)
+    p = p or int(g.integers(1, 9)); t = t or int(g.integers(1, 4)); q = int([1, 1, 2][int(g.integers(0, 3))])
+    kw = dict(beta=g.normal(size=(q, t)), u_misc=g.normal(size=(int(g.integers(1, 3)), t)) if g.random() < 0.4 else None,
+              u_a=g.normal(size=(p, t)), trait=_labels(g, t, "y") if g.random() < 0.8 else None,
+              model_name="model-%d" % int(g.integers(100)) if g.random() < 0.7 else None)
+    if g.random() < 0.7:
+        hp = {}
+        for i in range(int(g.integers(1, 4))):
+            hp["hp%d" % i] = [int(g.integers(-5, 100)), float(g.normal()), g.normal(size=int(g.integers(1, 4))), "REML"][int(g.integers(0, 4))]
+        kw["hyperparams"] = hp
+    if name == "DenseAdditiveDominanceLinearGenomicModel":
+        kw["u_d"] = g.normal(size=(p, t))          # non-zero dominance effects
+    if name == "rrBLUPModel0":
+        kw["method"] = "ML"
+    return cls(**kw)
+
+
+def lib_gmap(g):
+    from pybrops.popgen.gmap.ExtendedGeneticMap import ExtendedGeneticMap
+    from pybrops.popgen.gmap.StandardGeneticMap import StandardGeneticMap
+    chrs, pos, gen = [], [], []
+    for c in range(int(g.integers(1, 4))):
+        k = int(g.integers(2, 6))
+        chrs += [c + 1] * k
+        pos += list(numpy.sort(g.choice(numpy.arange(1, 400), k, replace=False)) * 5)
+        gen += list(numpy.cumsum(g.uniform(0.001, 0.4, k)))
+    m = len(chrs)
+    perm = g.permutation(m) if g.random() < 0.5 else numpy.arange(m)
+    chrs = numpy.array(chrs, dtype="int64")[perm]; pos = numpy.array(pos, dtype="int64")[perm]; gen = numpy.array(gen, dtype=float)[perm]
+    kw = dict(auto_group=bool(g.random() < 0.75), auto_build_spline=bool(g.random() < 0.75))
+    if g.random() < 0.5:
+        return StandardGeneticMap(chrs, pos, gen, **kw)
+    return ExtendedGeneticMap(chrs, pos, (pos + g.integers(0, 4, m)).astype("int64"), gen, vrnt_name=_labels(g, m, "m"), **kw)
+
+
+def lib_cmat(g, n=None):
+    import importlib
+    name = ["DenseMolecularCoancestryMatrix", "DenseVanRadenCoancestryMatrix", "DenseYangCoancestryMatrix"][int(g.integers(0, 3))]
+    cls = getattr(importlib.import_module("pybrops.popgen.cmat." + name), name)
+    n = n or int(g.integers(2, 7))
+    a = g.normal(size=(n, n + 2))
+    obj = cls(mat=a @ a.T / (n + 2), taxa=_labels(g, n, "t"), taxa_grp=g.integers(0, 3, n).astype("int64"))
+    if g.random() < 0.5:
+        obj.group_taxa()
+    return obj
+
+
+def lib_frame(g, n=None, t=None):
+    import pandas
+    n = n or int(g.integers(2, 8)); t = t or int(g.integers(1, 4))
+    d = {"taxa": list(_labels(g, n, "t")), "taxa_grp": g.integers(0, 3, n).astype("int64"), "env": ["e%d" % int(x) for x in g.integers(0, 2, n)]}
+    for j in range(t):
+        col = g.normal(size=n) * 5 + 20
+        if g.random() < 0.2:
+            col[int(g.integers(n))] = numpy.nan
+        d["y%d" % j] = col
+    return pandas.DataFrame(d)
+
+
+def lib_vmat(g):
+    import importlib
+    name, nsq = [("DenseTwoWayDHAdditiveGeneticVarianceMatrix", 2), ("DenseTwoWayDHAdditiveGenicVarianceMatrix", 2),
+                 ("DenseThreeWayDHAdditiveGeneticVarianceMatrix", 3), ("DenseThreeWayDHAdditiveGenicVarianceMatrix", 3),
+                 ("DenseFourWayDHAdditiveGeneticVarianceMatrix", 4), ("DenseFourWayDHAdditiveGenicVarianceMatrix", 4),
+                 ("DenseDihybridDHAdditiveGeneticVarianceMatrix", 2), ("DenseDihybridDHAdditiveGenicVarianceMatrix", 2)][int(g.integers(0, 8))]
+    cls = getattr(importlib.import_module("pybrops.model.vmat." + name), name)
+    n, t = int(g.integers(2, 5 if nsq < 4 else 4)), int(g.integers(1, 3))
+    kw = dict(taxa=_labels(g, n, "t"), trait=_labels(g, t, "y"))
+    grouped = g.random() < 0.5
+    if grouped or g.random() < 0.5:
+        kw["taxa_grp"] = g.integers(0, 3, n).astype("int64")
+    obj = cls(mat=g.uniform(0, 4, (n,) * nsq + (t,)), **kw)
+    if grouped:
+        obj.group_taxa()
+    return obj
+
+
+def lib_ptprot(g):
+    from pybrops.breed.prot.pt.G_E_Phenotyping import G_E_Phenotyping
+    from pybrops.breed.prot.pt.TruePhenotyping import TruePhenotyping
+    t = int(g.integers(1, 3))
+    gm = lib_gmod(g, t=t, name=["DenseAdditiveLinearGenomicModel", "DenseAdditiveDominanceLinearGenomicModel"][int(g.integers(0, 2))])
+    if g.random() < 0.3:
+        return TruePhenotyping(gpmod=gm)
+    nenv = int(g.integers(1, 4))
+
+    def var():
+        r = g.random()
+        return None if r < 0.3 else (float(numpy.round(g.uniform(0, 3), 3)) if r < 0.6 else g.uniform(0, 3, t))
+    return G_E_Phenotyping(gpmod=gm, nenv=nenv, nrep=int(g.integers(1, 4)) if g.random() < 0.5 else g.integers(1, 4, nenv).astype("int64"),
+                           var_env=var(), var_rep=var(), var_err=var(),
+                           rng=numpy.random.default_rng(int(g.integers(1 << 30))) if g.random() < 0.5 else None)
+
+
+def gen_library_state(g):
+    """Containers as the breeding-programme documentation describes them: genomes (phased), genotypes (unphased), phenotype
+    frames, breeding values, genomic models (+ genetic maps, coancestry matrices, lists of matrices)."""
+    S = [dict() for _ in NAMES]
+    n, p, t = int(g.integers(2, 8)), int(g.integers(2, 10)), int(g.integers(1, 4))
+    consistent = g.random() < 0.5     # one population described consistently, or unrelated objects per slot
+    dims = dict(n=n, p=p) if consistent else {}
+    S[0]["cand"] = lib_gmat(g, True, **dims)
+    if g.random() < 0.7:
+        S[0]["main"] = lib_gmat(g, True, **dims)
+    if g.random() < 0.4:
+        S[0]["queue"] = [lib_gmat(g, True) for _ in range(int(g.integers(1, 3)))]
+    if g.random() < 0.4:
+        S[0]["gmap"] = lib_gmap(g)
+    S[1]["cand"] = lib_gmat(g, False, **dims)
+    if g.random() < 0.7:
+        S[1]["main"] = lib_gmat(g, bool(g.random() < 0.3), **dims)
+    if g.random() < 0.4:
+        S[1]["queue"] = [lib_gmat(g, False) for _ in range(int(g.integers(1, 3)))]
+    if g.random() < 0.3:
+        S[1]["kinship"] = lib_cmat(g, n if consistent else None)
+    S[2]["main"] = lib_frame(g, n if consistent else None, t if consistent else None)
+    if g.random() < 0.4:
+        S[2]["cand"] = lib_frame(g)
+    S[3]["cand"] = lib_bvmat(g, n if consistent else None, t if consistent else None)
+    if g.random() < 0.6:
+        S[3]["cand_true"] = lib_bvmat(g, n if consistent else None, t if consistent else None)
+    if g.random() < 0.6:
+        S[3]["main"] = lib_bvmat(g)
+    gd = dict(p=p, t=t) if consistent else {}
+    S[4]["cand"] = lib_gmod(g, **gd)
+    S[4]["true"] = lib_gmod(g, **gd)
+    if g.random() < 0.6:
+        S[4]["main"] = lib_gmod(g, **gd)
+    if g.random() < 0.3:
+        S[4]["extra"] = {"models": [lib_gmod(g) for _ in range(int(g.integers(1, 3)))], "gmap": lib_gmap(g)}
+    if g.random() < 0.25:
+        S[3]["progeny variance"] = lib_vmat(g)
+    if g.random() < 0.25:
+        S[4]["phenotyping"] = lib_ptprot(g)
+    return S
+
+
 def gen_state(g, cls):
     """Five dict containers of input class ``cls`` (live objects; the caller digests them before use)."""
     S = [dict() for _ in NAMES]
     if cls == "empty":
         return S
+    if cls == "library":
+        return gen_library_state(g)
     if cls == "pybrops":
         S[0]["cand"] = _pgmat(g)
         S[0]["main"] = _pgmat(g)
@@ -238,7 +615,7 @@ def _children(o):
         vals = list(o)
     elif isinstance(o, numpy.ndarray):
         vals = o.ravel().tolist() if o.dtype == object else []
-    elif isinstance(o, (set, bytearray)):
+    elif isinstance(o, (set, bytearray)) or (type(o).__module__ or "").startswith("pandas"):
         vals = []
     elif hasattr(o, "__dict__"):
         vals = list(vars(o).values())
@@ -315,6 +692,11 @@ def mutate(g, cont, tag):
             cont[("mut", tag)] = [tag]
             return "insert key (array dtype)"
         return "array overwrite in place"
+    if (type(tgt).__module__ or "").startswith("pandas") and hasattr(tgt, "iat") and getattr(tgt, "ndim", 0) == 2 and tgt.size:
+        cols = [j for j in range(tgt.shape[1]) if tgt.dtypes.iloc[j].kind == "f"]
+        if cols:
+            tgt.iat[int(g.integers(tgt.shape[0])), cols[int(g.integers(len(cols)))]] = 7.25 + float(g.random())
+            return "data frame cell overwritten in place"
     # plain harness object: new attribute.  Library objects keep exactly their own fields (their classes copy field by field,
     # an ad-hoc attribute would not survive the class's own __deepcopy__ and that is not the programme's business)
     if isinstance(tgt, Box):
